@@ -33,7 +33,7 @@ fn unit_text(u: &str) -> String {
 }
 
 fn yaml_quote(s: &str) -> String {
-    format!("\"{}\"", s.replace('\\', "\\\\").replace('"', "\\\""))
+    format!("\"{}\"", s.replace('\\', "\\\\").replace('"', "\\\"").replace('\u{b}', "\\x0b"))
 }
 
 fn check_case(case: &Value) -> Option<Value> {
@@ -44,7 +44,7 @@ fn check_case(case: &Value) -> Option<Value> {
         lit["lead"].as_str().unwrap(),
         dg,
         if lit["frac"].as_bool().unwrap() { ".5" } else { "" },
-        lit["ws"].as_str().unwrap(),
+        lit["ws"].as_str().unwrap().replace("<nbsp>", "\u{a0}").replace("<vt>", "\u{b}"),
         unit_text(lit["unit"].as_str().unwrap()),
         lit["trail"].as_str().unwrap()
     );
